@@ -30,6 +30,8 @@ type Input struct {
 	Headers  [][2]string `json:"headers"`
 	Body     []byte      `json:"body"`
 	Family   string      `json:"family"`              // which decoder reads the body (reference acceptance rule, follow-up seed)
+	DB       string      `json:"db,omitempty"`        // database outcome while the request is served: "" healthy | all_fail | first1_fail | first3_fail | fail_after_first | slow
+	Big      *bigSpec    `json:"big,omitempty"`       // body built by the worker (too large for the shard file): sizedBody(Family, N, LineLen)
 	SeedBody bool        `json:"seed_body,omitempty"` // the body is the unmodified valid seed of Family (it carries rows)
 	Gen      string      `json:"gen"`                 // seed | bytes3 | mut1 | mut2 | trunc | params | headers | lit | size
 	Desc     string      `json:"desc"`                // what was done to the seed
@@ -1506,4 +1508,104 @@ func seedOf(fam string) []byte {
 	}
 	seedCache[fam] = b
 	return b
+}
+
+// ---------------------------------------------------------------------------------------------------------------
+// database outcome x body size
+
+type bigSpec struct {
+	Portions int `json:"portions"` // aimed number of ~1 MiB portions the decoder cuts the body into
+	N        int `json:"n"`
+	LineLen  int `json:"line_len"`
+}
+
+var dbOutcomes = []string{"", "all_fail", "first1_fail", "first3_fail", "fail_after_first", "slow"}
+
+// families whose decoders cut a body into portions (chunks of ~1 MiB of accounted rows)
+var portionFamilies = []string{"loki_json", "loki_proto", "prom_rw", "otlp_logs", "otlp_traces", "zipkin_json", "zipkin_ndjson",
+	"dd_logs", "dd_series", "dd_cf", "influx", "elastic_bulk"}
+
+func bigFor(fam string, portions int) *bigSpec {
+	switch fam {
+	case "prom_rw", "dd_series":
+		return &bigSpec{portions, 40400 * portions, 0} // 26 accounted bytes per point
+	case "zipkin_json", "zipkin_ndjson", "otlp_traces":
+		return &bigSpec{portions, portions, 400 * 1024} // a span's name is accounted about three times (name, payload, tag)
+	}
+	return &bigSpec{portions, 4 * portions, 300 * 1024} // 4 entries of 300 KiB cross 1 MiB
+}
+
+// GenerateDBX crosses the database outcome with the body size.  limits = small integer limits found in doParse/doPush
+// (ScanLimits).  Quick: every valid seed x every outcome; per portion family one body of 10 portions and, for every
+// limit n, n+1 and 2n portions x {healthy, every INSERT fails}.  Thorough: portions {1, 2, 3, 6, 10} and
+// {n-1, n, n+1, 2n} x every outcome.
+func GenerateDBX(o genOpts, firstID int, limits []int) []Input {
+	var out []Input
+	done := map[string]bool{}
+	add := func(fam, db, desc string, body []byte, big *bigSpec) {
+		rs, ct := routeForFamily(fam)
+		in := Input{ID: firstID + len(out), Route: rs.Template, Method: rs.Method, Path: rs.Path, Family: fam, Gen: "dbx", Desc: desc, Body: body, DB: db, Big: big}
+		if db == "" {
+			in.Desc += ", database healthy"
+		} else {
+			in.Desc += ", database " + db
+		}
+		in.SeedBody = big == nil
+		if rs.Query != "" {
+			in.Path += "?" + rs.Query
+		}
+		if ct.CT != "" {
+			in.Headers = [][2]string{{"Content-Type", ct.CT}}
+		}
+		out = append(out, in)
+	}
+	for _, rs := range routeTable {
+		for _, ct := range rs.Variants {
+			fam := ct.Family
+			if done[fam] || fam == "health" || fam == "unsupported_ct" {
+				continue
+			}
+			done[fam] = true
+			for _, db := range dbOutcomes[1:] {
+				add(fam, db, "valid seed", seedBody(fam, ""), nil)
+			}
+		}
+	}
+	portionSet := map[int]bool{}
+	if o.Thorough {
+		for _, p := range []int{1, 2, 3, 6, 10} {
+			portionSet[p] = true
+		}
+	} else {
+		portionSet[10] = true
+	}
+	for _, n := range limits {
+		if n > 16 {
+			continue // 2n portions of 1 MiB each per family would not fit any budget
+		}
+		if o.Thorough {
+			portionSet[n-1], portionSet[n], portionSet[n+1], portionSet[2*n] = true, true, true, true
+		} else {
+			portionSet[n+1], portionSet[2*n] = true, true
+		}
+	}
+	var portions []int
+	for p := range portionSet {
+		if p >= 1 {
+			portions = append(portions, p)
+		}
+	}
+	sort.Ints(portions)
+	outcomes := []string{"", "all_fail"}
+	if o.Thorough {
+		outcomes = dbOutcomes
+	}
+	for _, fam := range portionFamilies {
+		for _, p := range portions {
+			for _, db := range outcomes {
+				add(fam, db, fmt.Sprintf("body of about %d portions", p), nil, bigFor(fam, p))
+			}
+		}
+	}
+	return out
 }
